@@ -67,6 +67,7 @@ Definition check_fcase (c : fcase) : bool * bool :=
         | Some x, Some i => existsb (fun s => outcome_eqb x i (exit_value (Executed s false None))) all_full_status
                             && negb (fo_uncaught o)
         | None, None => fo_uncaught o || fo_timeout o
+        | None, Some _ => fo_uncaught o     (* the exception escaped after the identifier was printed *)
         | _, _ => false
         end
     end,
@@ -151,8 +152,15 @@ Fixpoint str_assoc {B} (k : string) (l : list (string * B)) : option B :=
   | (k', v) :: l' => if String.eqb k k' then Some v else str_assoc k l'
   end.
 
-Definition classes_eqb (a b : list (list pyexc)) : bool := list_eqb (list_eqb pyexc_eqb) a b.
-Definition tries_eqb (a b : list (list (list pyexc))) : bool := list_eqb classes_eqb a b.
+(** Two [try] statements are compared by WHAT THEY CATCH (for every modelled class: does some
+    clause name a base class of it?), so that merging, splitting or reordering clauses - a harmless
+    rewrite as far as catching goes - changes nothing; what a clause DOES with what it catches is
+    tied by the behavioural tables below. *)
+Definition try_catches (t : list (list pyexc)) (c : pyexc) : bool :=
+  existsb (fun cs => existsb (subclass c) cs) t.
+Definition try_same (a b : list (list pyexc)) : bool :=
+  forallb (fun c => Bool.eqb (try_catches a c) (try_catches b c)) all_pyexc.
+Definition tries_eqb (a b : list (list (list pyexc))) : bool := list_eqb try_same a b.
 
 (** The [try] statements of each anchored function as the model has them (source order). *)
 Definition model_chains : list (string * list (list (list pyexc))) :=
